@@ -101,6 +101,8 @@ ORDER_CASES = [
     'byte[] ln = [\'a\', \'b\', \'c\', \'d\', \'e\', \'f\', \'g\', \'h\', \'i\']; gi = 1; ln[gi] = (bump_i() + 64) is byte; write(ln); ln[gi] += bump_i() is byte; write(ln); write(gi);',
     'int[] li = [1, 2, 3, 4, 5, 6, 7, 8, 9]; gi = 0; li[gi] = bump_i() * 7; li[gi] += bump_i(); li[gi] = gi + bump_i(); write(li[0]); write(li[1]); write(li[2]); write(li[3]); gi = 5; GA[gi - 5] = bump_i(); write(GA[0]); write(GA[1]);',
     'bool[] lo = [false, false, false, false, false, false, false, false, false, false]; gi = 2; lo[gi] = bump_i() == 1; gb = 3; lo[gb] = bump_b() == 1; for (int q = 0; q < 10; q += 1) { write(lo[q] is int); } string[] ls2 = ["a", "b", "c", "d", "e", "f", "g", "h"]; gi = 1; ls2[gi] = pick_s(bump_i()); write(ls2[1]); write(ls2[2]);',
+    # a computed string (an element of a string array, a call result) indexed by an expression that itself indexes strings / bool arrays
+    'string[] al = ["abcdefgh", "ABCDEFGH"]; string word = "bad"; bool[] fl = [false, true, true]; int k = 1; for (int j = 0; j < 3; j += 1) { write(al[k][word[j] - \'a\']); write(al[j % 2][(fl[j] is int) + j]); } write(GSS[1][GSS[0].length]); write(pick_s(1)[word.length - 1]); write(pick_s(0)[(fl[1] is int) * 2]); write(al[fl[1] is int][word[2] - word[1] + 2]);',
     # computed left operand (lives in a register), right operand is the .length of something that needs registers
     'write(gi * 2 - GSS[1].length); write(gi + 1 < GSS[0].length); write(gi + 1 - pick_s(1).length); write((gi + 1) * pick_s(0).length);',
     'string[] ls = ["x", "yyy"]; int k = 1; write(gi * 3 + ls[k].length); write((gb + 1) * ls[k - 1].length); write(gi - 1 == GSS[gi - 4].length + 4);',
